@@ -168,7 +168,7 @@ def _format_resname(res):
     out = ''
     if chain:
         out += chain + '-'
-    resname = res.get('resname')
+    resname = res.get('resname') or ''
     out += resname
     if resname and resname[-1].isdigit():
         out += '#'
